@@ -184,9 +184,75 @@ func (p *Path) containsFork(label string, a *Atom, set ByteSet, none *B) bool {
 	return p.fork(label, []*B{none, bNot(none)}) == 0
 }
 
-// indexByteSet returns the index of the first byte in set, or -1; the string is split accordingly.
+// findFirst locates the first byte of s that lies in set without cutting an atom whose bytes
+// all lie in set (such an atom matches at its first byte as soon as it is non-empty).
+// Returns the part before the match and the part from the match on.
+func (p *Path) findFirst(s NF, set ByteSet) (before, from NF, found bool) {
+	s = p.res(s)
+	for i := 0; i < len(s); i++ {
+		sg := s[i]
+		if sg.atom == 0 {
+			for j := 0; j < len(sg.lit); j++ {
+				if set.has(sg.lit[j]) {
+					return nfCat(s[:i], nfLit(sg.lit[:j])), nfCat(nfLit(sg.lit[j:]), s[i+1:]), true
+				}
+			}
+			continue
+		}
+		a := p.atoms[sg.atom]
+		if a.cls.and(set).empty() {
+			continue
+		}
+		if a.cls.subsetOf(set) {
+			if p.alo(a) >= 1 || !p.branch("atom-empty", bLin(linV(a.lenv), EQ0)) {
+				return nfCat(s[:i]), nfCat(s[i:]), true
+			}
+			continue
+		}
+		b, w, after, f := p.splitFirst(s[i:], set)
+		if !f {
+			return p.res(s), NF{}, false
+		}
+		return nfCat(s[:i], b), nfCat(w.nf(), after), true
+	}
+	return s, NF{}, false
+}
+
+// findLast mirrors findFirst: returns the part up to and including the last match, and the rest.
+func (p *Path) findLast(s NF, set ByteSet) (upto, after NF, found bool) {
+	s = p.res(s)
+	for i := len(s) - 1; i >= 0; i-- {
+		sg := s[i]
+		if sg.atom == 0 {
+			for j := len(sg.lit) - 1; j >= 0; j-- {
+				if set.has(sg.lit[j]) {
+					return nfCat(s[:i], nfLit(sg.lit[:j+1])), nfCat(nfLit(sg.lit[j+1:]), s[i+1:]), true
+				}
+			}
+			continue
+		}
+		a := p.atoms[sg.atom]
+		if a.cls.and(set).empty() {
+			continue
+		}
+		if a.cls.subsetOf(set) {
+			if p.alo(a) >= 1 || !p.branch("atom-empty", bLin(linV(a.lenv), EQ0)) {
+				return nfCat(s[:i+1]), nfCat(s[i+1:]), true
+			}
+			continue
+		}
+		b, w, aft, f := p.splitLast(s[:i+1], set)
+		if !f {
+			return NF{}, p.res(s), false
+		}
+		return nfCat(b, w.nf()), nfCat(aft, s[i+1:]), true
+	}
+	return NF{}, s, false
+}
+
+// indexSet returns the index of the first byte in set, or -1; the string is split accordingly.
 func (p *Path) indexSet(s NF, set ByteSet) (Lin, bool) {
-	before, _, _, found := p.splitFirst(s, set)
+	before, _, found := p.findFirst(s, set)
 	if !found {
 		return linC(-1), false
 	}
@@ -194,11 +260,35 @@ func (p *Path) indexSet(s NF, set ByteSet) (Lin, bool) {
 }
 
 func (p *Path) lastIndexSet(s NF, set ByteSet) (Lin, bool) {
-	before, _, _, found := p.splitLast(s, set)
+	upto, _, found := p.findLast(s, set)
 	if !found {
 		return linC(-1), false
 	}
-	return p.lenOf(before), true
+	return p.lenOf(upto).addC(-1), true
+}
+
+// firstByteMay reports whether the first byte of s may lie in set (by classes only).
+func (p *Path) firstByteMay(s NF, set ByteSet) bool {
+	s = p.res(s)
+	if len(s) == 0 {
+		return false
+	}
+	if s[0].atom == 0 {
+		return set.has(s[0].lit[0])
+	}
+	return !p.atoms[s[0].atom].cls.and(set).empty()
+}
+
+func (p *Path) lastByteMay(s NF, set ByteSet) bool {
+	s = p.res(s)
+	if len(s) == 0 {
+		return false
+	}
+	l := s[len(s)-1]
+	if l.atom == 0 {
+		return set.has(l.lit[len(l.lit)-1])
+	}
+	return !p.atoms[l.atom].cls.and(set).empty()
 }
 
 // split implements strings.Split for a single-byte separator.
@@ -408,22 +498,26 @@ func (p *Path) equalFold(s NF, lit string) *B {
 // trimLeftSpace / trimRightSpace implement the two halves of strings.TrimSpace.
 func (p *Path) trimLeftSpace(s NF) NF {
 	nonSpace := setASCIISpace.not()
-	_, w, after, found := p.splitFirst(s, nonSpace)
+	_, from, found := p.findFirst(s, nonSpace)
 	if !found {
 		return NF{}
 	}
-	p.checkSpaceLead(w)
-	return nfCat(w.nf(), after)
+	if p.firstByteMay(from, setSpaceLead) {
+		p.checkSpaceLead(p.byteAt(from, linC(0)))
+	}
+	return p.res(from)
 }
 
 func (p *Path) trimRightSpace(s NF) NF {
 	nonSpace := setASCIISpace.not()
-	before, w, _, found := p.splitLast(s, nonSpace)
+	upto, _, found := p.findLast(s, nonSpace)
 	if !found {
 		return NF{}
 	}
-	p.checkSpaceLead2(w)
-	return nfCat(before, w.nf())
+	if p.lastByteMay(upto, setRange(0x80, 0xBF)) {
+		p.checkSpaceLead2(p.byteAt(upto, p.lenOf(upto).addC(-1)))
+	}
+	return p.res(upto)
 }
 
 // checkSpaceLead: a byte that may start a multi-byte Unicode space (U+0085, U+00A0, U+1680,
@@ -475,23 +569,20 @@ func (p *Path) trimSpace(s NF) NF {
 func (p *Path) fields(s NF) []NF {
 	var out []NF
 	nonSpace := setASCIISpace.not()
+	p.checkHighAll(s)
 	for n := 0; ; n++ {
 		if n > p.eng.cfg.maxPieces {
 			p.abort("unwind", "Fields produced more pieces than the bound")
 		}
-		_, w, after, found := p.splitFirst(s, nonSpace)
+		_, rest, found := p.findFirst(s, nonSpace)
 		if !found {
 			return out
 		}
-		p.checkHighInField(w)
-		rest := nfCat(w.nf(), after)
-		p.checkHighAll(rest)
-		field, sp, tail, found2 := p.splitFirst(rest, setASCIISpace)
+		field, _, tail, found2 := p.splitFirst(rest, setASCIISpace)
 		out = append(out, field)
 		if !found2 {
 			return out
 		}
-		_ = sp
 		s = tail
 	}
 }
